@@ -29,7 +29,7 @@ def run(ctx, rep):
     N.check_time_wiring(r5, rh)
     rf = rep.rule("folds", "predecessor = last event appended to the same list (S4); one tempo map per chart", floor=6)
     T.check_folds(rf)
-    check_all_sections(ctx, rf)
+    check_all_sections(ctx, rf, strict=False)
     rc = rep.rule("note-cursor", "tempo cursor threaded through the grouping loop: init 0, own keyword, own result component", floor=1)
     rx = rep.rule("S1", "grouping loop shape (cursor carried per group)", floor=1)
     N.check_grouping(rx, rc)
